@@ -24,7 +24,11 @@ TEXTS = {
                 "'already linked => stop' changes nothing but the annotation sets of its kind and adds the annotation to exactly the target "
                 "and its cached ancestors — proved for every fuel from two facts only: the ancestor cache is transitive and irreflexive (C01) "
                 "and earlier propagations ran to completion (call-stack invariant upclosed_except); any sequence of propagations (any order, "
-                "repetitions) leaves a term with an annotation iff it had it before or a direct fact sits at the term or below it. Plus "
+                "repetitions) leaves a term with an annotation iff it had it before or a direct fact sits at the term or below it. The "
+                "hypotheses of these theorems hold of every acyclic ontology with exact caches (C02_propagation_hypotheses_hold; exact caches "
+                "are proved of every Builder-built ontology), and loading all records of a kind gives every term exactly the ids with a direct "
+                "fact at the term or at a descendant (C02_model_record_phase). Record side: annotate_* adds the term to the record's direct "
+                "set only. Plus "
                 "soundness of the executable statement kind_ok / recs_ok, evaluated on the real crate's observation for the three kinds "
                 "separately (records vs supplied facts, id-map probes for kind leakage); the transcription is diffed against the crate.",
         "design_ref": "DESIGN.md §4 C02, §9", "note": NOTE_COMMON + "Acyclic inputs only.", "technique": TECH,
@@ -119,8 +123,11 @@ TEXTS = {
                 "is transparent. TERM STRUCTURE (C07_reload_keeps_terms): for every ontology with exact caches and children = parents^-1 "
                 "that the format can carry — every Builder-built one is such (C07_builder_ontologies_are_sources) — the reload returns every "
                 "term at the same position with the same id, name (cut at the limit), obsolete flag, replacement, direct parents, children and "
-                "ancestor cache. PARTIAL: that the propagated annotation sets, the records and the information content come back equal is "
-                "not yet one theorem (both sides are the propagation of the same direct facts: C02/C03); it is decided per generated "
+                "ancestor cache. ANNOTATIONS (C07_reload_keeps_annotations): if moreover the is_a graph is acyclic and every term of the source "
+                "carries exactly the annotations with a direct fact at the term or one of its descendants (the C02 statement), then after the "
+                "reload every term carries, for each kind, exactly the same set, for any permutation of the records in the file. PARTIAL: "
+                "equality of the record maps and of the information content after reload is not yet a theorem (IC is a function of the counts: "
+                "C03); it is decided per generated "
                 "ontology by running the encode/decode transcription against as_bytes/from_bytes (bytes compared record-sorted, reload dumped "
                 "through the whole read API, Ontology::compare consulted) and by spec_C07 evaluated on the crate's observation.",
         "design_ref": "DESIGN.md §4 C07, §9", "note": NOTE_COMMON + "String::from_utf8 / is_char_boundary modelled by byte-level predicates.", "technique": TECH,
